@@ -301,7 +301,7 @@ type c15WorldCase struct {
 }
 
 var c15Degeneracies = []string{
-	"empty-rule-step", "empty-rule-inspection", "one-token-rule", "threshold-zero", "threshold-negative", "threshold-huge", "step-without-links", "pubkey-undefined",
+	"empty-rule-step", "empty-rule-inspection", "one-token-rule", "threshold-zero", "threshold-negative", "threshold-huge", "threshold-negative-with-links", "threshold-zero-with-links", "threshold-min-int", "step-without-links", "pubkey-undefined",
 	"key-type-vs-material", "ed25519-short", "ed25519-nonhex", "key-garbage-pem", "rootca-garbage", "intermediate-garbage", "ca-entry-holds-key", "ca-entry-holds-key", "link-self-referential-sublayout", "empty-run", "name-glob", "name-separator", "name-dotdot",
 	"duplicate-step", "steps-null", "inspect-null", "keys-null", "expected-null", "huge-readme", "verifier-key-short", "verifier-key-mismatch", "step-and-inspection-same-name",
 	"link-garbage", "link-empty-object", "link-null-members", "link-bad-cert", "link-pubkey-as-cert", "link-unauthorised-sublayout", "link-authorised-sublayout-no-dir",
@@ -370,6 +370,13 @@ func c15Apply(w hx.World, kinds []string) hx.World {
 		case "threshold-negative":
 			s0.Threshold = -3
 			links = dropLinks(links, s0.Name)
+		case "threshold-negative-with-links":
+			// the honest links are all there: every later stage sees a step with links and a negative threshold
+			s0.Threshold = -1 - len(links)%7
+		case "threshold-zero-with-links":
+			s0.Threshold = 0
+		case "threshold-min-int":
+			s0.Threshold = -1 << 62
 		case "threshold-huge":
 			s0.Threshold = 1 << 40
 		case "step-without-links":
@@ -703,7 +710,7 @@ func TestC15(t *testing.T) {
 	}
 	hx.Check[c15WorldCase]{
 		Property: "C15", Part: "worlds",
-		Rule:  "properly signed degenerate layouts and hostile link directories verified end to end in an isolated process (both entry points, both wrappers): 1-3 of 43 degeneracies (empty / one-token rules, thresholds <=0 or huge, steps without links, undefined or contradictory or malformed keys, garbage certificates, empty run, names with glob metacharacters / separators, duplicate and null collections, hostile verifier keys; garbage / wrong-shape / null-member link files, garbage or key-as-certificate entries, unauthorised and directory-less sublayouts, directories, dangling symlinks and FIFOs named like links); non-trivial = the layout loads and verification proper is reached; distinct by (degeneracies, wrapper, entry)",
+		Rule:  "properly signed degenerate layouts and hostile link directories verified end to end in an isolated process (both entry points, both wrappers): 1-3 of 46 degeneracies (empty / one-token rules, thresholds <=0 or huge, steps without links, undefined or contradictory or malformed keys, garbage certificates, empty run, names with glob metacharacters / separators, duplicate and null collections, hostile verifier keys; garbage / wrong-shape / null-member link files, garbage or key-as-certificate entries, unauthorised and directory-less sublayouts, directories, dangling symlinks and FIFOs named like links); non-trivial = the layout loads and verification proper is reached; distinct by (degeneracies, wrapper, entry)",
 		Cases: hx.Pick(250, 40000),
 		Gen:   c15GenWorld, Run: c15RunWorld,
 	}.Execute(t)
